@@ -15,9 +15,9 @@ func init() { register("C13", checkC13) }
 func checkC13(p *Prog, r *Result, tier string) {
 	r.Technique = "pairing/dominance rules on the AST+CFG of doCreateWorkloads, atomic-group shape of BatchCreateAndDecr in both stores, sum-of-two-sources shape of GetDeployStatus, symbolic key evaluation of the prefix queries"
 	r.Explanation = "P1 the in-progress marker is created for the keys of the same map variable, with the same key->marker derivation, as the deferred deletion iterates, and the deletion is a defer of the producer registered before the transaction; P2 on the create path AddWorkload receives the marker (constant true from the deploy loop; nil only under !decrProcessing); " +
-		"P3 in each backend AddWorkload with a marker reaches BatchCreateAndDecr, which issues the record creates and the decrement inside one transaction primitive (etcd: one ETCDTxn whose Then holds puts and the decrement, compared on the marker value; redis: one TxPipelined closure holding Decr and the SetNX's); P4 GetDeployStatus is deployed-count plus marker-count in both backends; PK both counts are read with prefix keys ending in the separator. P5 the deferred deletion runs under a context detached from the caller (utils.NewInheritCtx), so a cancelled request still cleans its markers up; W2 (from C14): markers are deleted before their log entries are committed."
-	r.NotCovered = "the counts at intermediate steps of a run; redis SETNX results being ignored (reported under C23)"
-	r.Assumptions = []string{"A4 an etcd Txn and a redis TxPipelined (MULTI/EXEC) apply their operations atomically", "A2 interface dispatch bounded by module types (mocks/fakes excluded)", "go/cfg dominance stands for execution order inside doCreateWorkloads"}
+		"P3 in each backend AddWorkload with a marker reaches BatchCreateAndDecr, which issues the record creates and the decrement inside one transaction primitive (etcd: one ETCDTxn whose Then holds puts and the decrement, compared on the marker value; redis: one TxPipelined closure holding Decr and the SetNX's, or one server-side script holding DECR and the SETs); P4 GetDeployStatus is deployed-count plus marker-count in both backends; PK both counts are read with prefix keys ending in the separator. P5 the deferred deletion runs under a context detached from the caller (utils.NewInheritCtx), so a cancelled request still cleans its markers up; W2 (from C14): markers are deleted before their log entries are committed."
+	r.NotCovered = "the counts at intermediate steps of a run"
+	r.Assumptions = []string{"A4 an etcd Txn, a redis TxPipelined (MULTI/EXEC) and a redis server-side script apply their operations atomically", "A2 interface dispatch bounded by module types (mocks/fakes excluded)", "go/cfg dominance stands for execution order inside doCreateWorkloads"}
 	F := p.Fn("cluster/calcium.(*Calcium).doCreateWorkloads")
 	one := p.Fn("cluster/calcium.(*Calcium).doDeployOneWorkload")
 	onNode := p.Fn("cluster/calcium.(*Calcium).doDeployWorkloadsOnNode")
@@ -393,8 +393,65 @@ func checkRedisBCD(p *Prog, r *Result, fn *FuncNode, key string) {
 	calls := fn.calls(func(f *types.Func) bool {
 		return fullObjName(f) == "github.com/go-redis/redis/v8.(*Client).TxPipelined"
 	})
+	if len(calls) == 0 {
+		// second accepted form: one server-side script (atomic in redis) that decrements the marker and writes the records
+		var scripts []*ast.CallExpr
+		other := 0
+		fn.inspectBody(func(n ast.Node) bool {
+			if c, ok := n.(*ast.CallExpr); ok {
+				if f := fn.Callee(c); f != nil && strings.Contains(fullObjName(f), "go-redis") {
+					switch f.Name() {
+					case "Run", "Eval", "EvalSha":
+						scripts = append(scripts, c)
+					case "Int", "Result", "Err", "Bool", "Int64", "Text":
+						// reading the script's reply
+					default:
+						other++
+					}
+				}
+			}
+			return true
+		})
+		if len(scripts) == 1 && other == 0 {
+			txt := strings.ToUpper(c23ScriptText(p, fn, scripts[0]))
+			dataObj, keyObj := fn.paramObj(1), fn.paramObj(2)
+			rangesData := false
+			fn.inspectBody(func(n ast.Node) bool {
+				if rs, ok := n.(*ast.RangeStmt); ok && fn.objOf(rs.X) == dataObj {
+					rangesData = true
+				}
+				return true
+			})
+			passesKey := false
+			for _, a := range scripts[0].Args {
+				if fn.usesObj(a, keyObj) {
+					passesKey = true
+				}
+				if id, ok := unparen(a).(*ast.Ident); ok {
+					// keys slice built from decrKey
+					o := fn.objOf(id)
+					fn.inspectBody(func(n ast.Node) bool {
+						if as, ok := n.(*ast.AssignStmt); ok {
+							for i, l := range as.Lhs {
+								if fn.objOf(l) == o && i < len(as.Rhs) && fn.usesObj(as.Rhs[i], keyObj) {
+									passesKey = true
+								}
+							}
+						}
+						return true
+					})
+				}
+			}
+			if strings.Contains(txt, "\"DECR\"") && strings.Contains(txt, "\"SET") && rangesData && passesKey {
+				r.ok("P3", key, p.pos(scripts[0]), "one server-side script: DECR of the marker key + SET of every entry of data")
+			} else {
+				r.bad("P3", key, p.pos(scripts[0]), fmt.Sprintf("script shape changed (DECR in script: %v, SET in script: %v, all entries of data passed: %v, marker key passed: %v)", strings.Contains(txt, "\"DECR\""), strings.Contains(txt, "\"SET"), rangesData, passesKey))
+			}
+			return
+		}
+	}
 	if len(calls) != 1 {
-		r.bad("P3", key, p.pos(fn.Decl), fmt.Sprintf("%d TxPipelined calls (want exactly 1)", len(calls)))
+		r.bad("P3", key, p.pos(fn.Decl), fmt.Sprintf("%d TxPipelined calls and no single server-side script: the records and the decrement are not one atomic step", len(calls)))
 		return
 	}
 	lit, ok := p.resolveFuncArg(fn, calls[0].Args[1])
